@@ -205,8 +205,8 @@ impl Prop for C06 {
 
     fn lanes(tier: Tier) -> Vec<Lane> {
         vec![Lane::new("main", tier.pick(2_000_000, 12_000_000))
-            .cap(tier.pick(60, 600))
-            .floor(tier.pick(300_000, 1_500_000))]
+            .cap(tier.pick(150, 1200))
+            .floor(tier.pick(100_000, 600_000))]
     }
 
     fn rule() -> &'static str {
